@@ -44,8 +44,16 @@ def make_bed(theta):
 
 
 class _Result(dict):
-    __getattr__ = dict.get
+    def __getattr__(self, name):
+        try:
+            return self[name]
+        except KeyError as e:
+            raise AttributeError(name) from e
+
     __setattr__ = dict.__setitem__
+
+
+NO_HESS_INV = ("CG", "Nelder-Mead", "Newton-CG", "trust-krylov", "trust-ncg", "trust-exact")
 
 
 class ConcreteStub:
@@ -62,7 +70,7 @@ class ConcreteStub:
         x0 = np.array(x0, dtype=np.float64)
         fun(x0)
         xm = self.point(n, tag + "m", x0)
-        fun(xm)
+        rm = fun(xm)
         if callback is not None:
             callback(xm)
         xf = self.point(n, tag + "f", x0)
@@ -71,7 +79,17 @@ class ConcreteStub:
         g = np.asarray(r[1], dtype=np.float64) if isinstance(r, tuple) else np.zeros(n)
         xa = self.point(n, tag + "a", x0 + 0.3)
         fun(xa)
-        return _Result(x=xf, fun=float(ff), jac=g, success=self.success, nit=1, nfev=4, hess_inv=np.eye(n), message="stub")
+        fun_reported = float(ff)
+        if method == "L-BFGS-B" and not self.success:
+            fun_reported = float(rm[0] if isinstance(rm, tuple) else rm)
+        res = _Result(x=xf, fun=fun_reported, success=self.success, nit=1, nfev=4, message="stub")
+        if method != "Nelder-Mead":
+            res["jac"] = g
+        if method == "Newton-CG" and not self.success:
+            res["jac"] = None
+        if method not in NO_HESS_INV:
+            res["hess_inv"] = np.eye(n)
+        return res
 
     def minuit_module(stub):
         mod = types.ModuleType("iminuit")
@@ -131,7 +149,7 @@ def postconditions(vm, fcn, res, start_nll, theta):
     return bad
 
 
-def run_fit(methods, success, model, true_minimiser=False):
+def run_fit(methods, success, model, true_minimiser=False, grad_scale=None):
     import tf_pwa.fit as fit
     from tf_pwa.applications import fit as do_fit
 
@@ -148,7 +166,8 @@ def run_fit(methods, success, model, true_minimiser=False):
         start = float(fcn({}))
         for m in methods:
             try:
-                res = do_fit(fcn=fcn, method=m, bounds_dict=dict(BOUNDS), maxiter=3 if not true_minimiser else 200, improve=False)
+                kw = {} if grad_scale is None else {"grad_scale": grad_scale}
+                res = do_fit(fcn=fcn, method=m, bounds_dict=dict(BOUNDS), maxiter=3 if not true_minimiser else 200, improve=False, **kw)
             except Exception as e:
                 return ["%s raised %s: %s" % (m, type(e).__name__, str(e)[:200])]
             bad += ["%s: %s" % (m, b) for b in postconditions(vm, fcn, res, start + (0 if not true_minimiser else 0), theta)]
@@ -175,9 +194,10 @@ def conformance(tier):
 def replay(p):
     try:
         model = p.get("model", {})
-        bad = run_fit(p["methods"], p.get("success", True), model, true_minimiser=False)
-        real = run_fit(p["methods"], p.get("success", True), model, true_minimiser=True)
-        return {"reproduced": bool(bad), "violated": bad[:6], "with_true_minimiser": real[:6]}
+        gs = float(model.get("grad_scale", 0.25)) if p.get("grad_scale") else None
+        bad = run_fit(p["methods"], p.get("success", True), model, true_minimiser=False, grad_scale=gs)
+        real = run_fit(p["methods"], p.get("success", True), model, true_minimiser=True, grad_scale=gs)
+        return {"reproduced": bool(bad) or bool(real), "violated": bad[:6], "with_true_minimiser": real[:6]}
     except Exception as e:
         import traceback
 
